@@ -39,6 +39,7 @@ impl OutputFormat for TundraDraw {
         result.extend(TUNDRA_HEADER);
         let mut attr = TextAttribute::from_u8(0, buf.ice_mode);
         let mut skip_pos = None;
+        let mut first = true;
         let mut colors = HashSet::new();
 
         let fonts = analyze_font_usage(buf);
@@ -82,26 +83,18 @@ impl OutputFormat for TundraDraw {
                     return Err(SavingError::Only8BitCharactersSupported.into());
                 }
 
-                if (1..=6).contains(&ch) {
-                    // fake color change to represent control characters
-                    result.push(TUNDRA_COLOR_FOREGROUND);
-                    result.push(ch as u8);
-
-                    let rgb = buf.palette.get_rgb(attr.get_foreground());
-                    result.push(0);
-                    result.push(rgb.0);
-                    result.push(rgb.1);
-                    result.push(rgb.2);
-                    continue;
-                }
-
+                // bytes 1..6 are commands: such a character has to travel inside a colour record (with its own colours);
+                // the first cell states both colours because the file has no palette the carried attribute could refer to
+                let force = (1..=6).contains(&ch) || first;
                 let mut cmd = 0;
-                let write_foreground = buf.palette.get_color(attr.get_foreground()).get_rgb() != buf.palette.get_color(cur_attr.get_foreground()).get_rgb()
+                let write_foreground = force
+                    || buf.palette.get_color(attr.get_foreground()).get_rgb() != buf.palette.get_color(cur_attr.get_foreground()).get_rgb()
                     || attr.is_bold() != cur_attr.is_bold();
                 if write_foreground {
                     cmd |= TUNDRA_COLOR_FOREGROUND;
                 }
-                let write_background = buf.palette.get_color(attr.get_background()).get_rgb() != buf.palette.get_color(cur_attr.get_background()).get_rgb();
+                let write_background = first || buf.palette.get_color(attr.get_background()).get_rgb() != buf.palette.get_color(cur_attr.get_background()).get_rgb();
+                first = false;
                 if write_background {
                     cmd |= TUNDRA_COLOR_BACKGROUND;
                 }
